@@ -58,8 +58,30 @@ impl Dict {
         if let Some((_, b)) = self.cred.iter().find(|(n, _)| n == name) {
             return b.clone();
         }
-        let mut b = vec![0u8; 16];
-        rng.fill_bytes(&mut b);
+        // ids that are different byte strings but "near" another one: "<base>:pre" its first half, "<base>:ext" the
+        // id with four bytes appended, "<base>:flip" the id with its last bit flipped, "id:empty" the empty id
+        let mut b = if name == "id:empty" {
+            vec![]
+        } else if let Some((base, kind)) = name.split_once(':') {
+            let mut v = self.cred_bytes(base, rng);
+            match kind {
+                "pre" => v.truncate(v.len() / 2),
+                "ext" => v.extend_from_slice(&[0xa5, 0x5a, 0x00, 0xff]),
+                _ => {
+                    if let Some(l) = v.last_mut() {
+                        *l ^= 1;
+                    }
+                }
+            }
+            v
+        } else {
+            let mut b = vec![0u8; 16];
+            rng.fill_bytes(&mut b);
+            b
+        };
+        if name.is_empty() {
+            b.clear();
+        }
         self.cred.push((name.to_string(), b.clone()));
         b
     }
